@@ -21,6 +21,7 @@ from pv import tlc
 INF = 9999
 R = 7
 P_FAIL = 1e-9
+P_FAIL_CLOSE = 3e-4
 
 
 class Runaway(Exception):
@@ -50,6 +51,9 @@ def check_constants():
   ra = [int(x) for x in re.search(r'RepAtDef == <<([^>]*)>>', txt).group(1).split(',')]
   if ra != [R * k for k in range(1, len(ra) + 1)]:
     raise tlc.MachineryError('RepAtDef')
+  fc = [int(x) for x in re.search(r'FailAtClose == <<([^>]*)>>', txt).group(1).split(',')]
+  if fc != [_fail_at(k, P_FAIL_CLOSE) for k in range(1, len(fc) + 1)]:
+    raise tlc.MachineryError('MC_TS.tla FailAtClose')
 
 
 def _pv(e):
@@ -96,7 +100,7 @@ class Scripted:
     return test
 
 
-def replay_behaviour(rts, nist_suite, sid, hist, mode, min_reps, tests, names_of, rng):
+def replay_behaviour(rts, nist_suite, sid, hist, mode, min_reps, tests, names_of, rng, p_fail=None):
   """Runs the real entry point with scripted tests; returns the records."""
   recs = [{'sid': sid, 'ev': 'Start', 'raised': 'none'}]
   sc = Scripted(hist, names_of, {2}, rng)
@@ -129,7 +133,7 @@ def replay_behaviour(rts, nist_suite, sid, hist, mode, min_reps, tests, names_of
   try:
     if mode == 'source':
       ret = rts.TestSource(lambda n: 0, 64, significance_level_repeat=2.0 ** -R,
-                           significance_level_fail=P_FAIL, log_level=0, min_repetitions=min_reps)
+                           significance_level_fail=(p_fail or P_FAIL), log_level=0, min_repetitions=min_reps)
     else:
       ret = rts.TestBitString(0, 64, significance_level=2.0 ** -30, log_level=0)
     rec['obs'] = {'ret': bool(ret), 'ret_is_bool': isinstance(ret, bool)}
@@ -159,7 +163,7 @@ def rule_part(ctx):
   check_constants()
   names_of = {1: ['a', 'b'], 2: ['result']}
   # 1. model checking
-  cfgs = ['MC_TS_bit.cfg', 'MC_TS_quick.cfg'] if ctx.quick else ['MC_TS_bit.cfg', 'MC_TS_quick.cfg', 'MC_TS_source1.cfg',
+  cfgs = ['MC_TS_bit.cfg', 'MC_TS_quick.cfg', 'MC_TS_close.cfg'] if ctx.quick else ['MC_TS_bit.cfg', 'MC_TS_quick.cfg', 'MC_TS_close.cfg', 'MC_TS_source1.cfg',
                                                                 'MC_TS_source2.cfg']
   for c in cfgs:
     r = tlc.expect_holds('MC_TS', c, require_actions=('StepRun', 'EndRound'), timeout=1800)
@@ -191,6 +195,10 @@ def rule_part(ctx):
     hn = gen('GEN_TS_named%d.cfg' % m)
     hn = ctx.rng.sample(hn, min(len(hn), 700 if ctx.quick else 6000))
     plans.append(('TSTrace_named%d.cfg' % m, 'source', m, [1], [('nm%d-%05d' % (m, i), h) for i, h in enumerate(hn)]))
+  # fail level close to the repeat level: the region where "below the fail level" and "above the combined repeat level" overlap
+  hc = gen('GEN_TS_close.cfg')
+  hc = ctx.rng.sample(hc, min(len(hc), 1500 if ctx.quick else 20000))
+  plans.append(('TSTrace_close.cfg', 'source', 1, [2], [('cl-%05d' % i, h) for i, h in enumerate(hc)], P_FAIL_CLOSE))
   hb = gen('GEN_TS_bit.cfg')
   plans.append(('TSTrace_bit.cfg', 'bitstring', 1, [1, 2], [('bit-%05d' % i, h) for i, h in enumerate(hb)]))
   simdir = os.path.join(tlc.BUILD, 'sim-C13-%d' % os.getpid())
@@ -210,12 +218,14 @@ def rule_part(ctx):
                   [('sim%d-%s' % (m, name), _hist_from_sim(states)) for name, states in beh if states]))
     shutil.rmtree(simdir, ignore_errors=True)
   # 3. replay + 4. validate
-  for cfg, mode, m, tests, items in plans:
+  for plan in plans:
+    cfg, mode, m, tests, items = plan[:5]
+    pf = plan[5] if len(plan) > 5 else None
     recs = []
     for sid, hist in items:
       if ctx.only_sid and sid != ctx.only_sid:
         continue
-      recs += replay_behaviour(rts, nist_suite, sid, hist, mode, m, tests, names_of, ctx.rng)
+      recs += replay_behaviour(rts, nist_suite, sid, hist, mode, m, tests, names_of, ctx.rng, pf)
     if not recs:
       continue
     ctx.replayed += len(items)
